@@ -104,6 +104,15 @@ STATE_POOLS = {"str": ["s0", "s1", "s2"], "int": [0, 1, 2], "collide": ["s0", "s
 
 @st.composite
 def fst_desc(draw, pool=None, max_states=3, max_trans=6):
+    if draw(st.sampled_from([0, 0, 0, 0, 0, 1, 0, 0])) == 1:
+        # a long chain of (mostly epsilon-input) moves: long epsilon runs without any cycle
+        n = draw(st.sampled_from([6, 10, 14, 15]))
+        names = ["s%d" % i for i in range(n)]
+        trans = []
+        for i in range(n - 1):
+            a = None if draw(st.integers(0, 9)) < 8 else draw(st.sampled_from(["a", "b"]))
+            trans.append([names[i], a, names[i + 1], draw(st.sampled_from([[], ["x"], [], ["y"]]))])
+        return {"starts": [names[0]], "finals": [names[-1]], "trans": trans, "pool": "chain"}
     pn = pool or draw(st.sampled_from(["str", "str", "int", "collide", "mixed", "star"]))
     names = STATE_POOLS[pn]
     n = min(draw(st.sampled_from([2, 3, 1, 2])), max_states)
